@@ -389,6 +389,33 @@ def possible_strings(prog, f, node):
     return out if found else None
 
 
+def resolve_test_name(func_node, test):
+    """`flag = <expr>` followed by `if flag:` (or `if not flag:`): returns <expr> (negated accordingly) when `test` is such a name
+    with exactly one assignment in the function, that assignment being the statement just before the `if` in the same block;
+    otherwise returns `test` unchanged."""
+    neg = False
+    t = test
+    if isinstance(t, ast.UnaryOp) and isinstance(t.op, ast.Not) and isinstance(t.operand, ast.Name):
+        neg, t = True, t.operand
+    if not isinstance(t, ast.Name):
+        return test
+    stores = [x for x in ast.walk(func_node) if isinstance(x, ast.Name) and x.id == t.id and isinstance(x.ctx, ast.Store)]
+    if len(stores) != 1:
+        return test
+    d = getattr(stores[0], "parent", None)
+    if not (isinstance(d, ast.Assign) and len(d.targets) == 1 and d.targets[0] is stores[0]):
+        return test
+    ifst = getattr(test, "parent", None)
+    blk_owner = getattr(d, "parent", None)
+    if ifst is None or blk_owner is None or getattr(ifst, "parent", None) is not blk_owner:
+        return test
+    for blk in ("body", "orelse", "finalbody"):
+        seq = getattr(blk_owner, blk, None)
+        if isinstance(seq, list) and d in seq and ifst in seq and seq.index(ifst) == seq.index(d) + 1:
+            return ast.UnaryOp(op=ast.Not(), operand=d.value) if neg else d.value
+    return test
+
+
 def attr_path(node):
     """'self.next_states' for Attribute(Name self, next_states); None if not a pure path."""
     parts = []
